@@ -177,6 +177,7 @@ class LaTeXRenderer(BaseRenderer):
                     '{inner}'
                     '\\end{{document}}\n')
         self.footnotes.update(token.footnotes)
+        self.packages = {}  # packages are collected per document
         return template.format(inner=self.render_inner(token),
                                packages=self.render_packages())
 
